@@ -18,6 +18,20 @@ calls of a class declared in the spec: the arguments are matched to the paramete
 class's `__init__` *as written in the source*, and `__init__` must assign each parameter to
 the field of the same name.  Anything else raises Unsupported (= the tie is not available for
 the current source; never a finding by itself).
+
+Added for the run filters (spec `lean/gen/run_filter.json`):
+* spec key `views`: objects of which only the listed, typed attributes are read (`bench.suite.executor.name`);
+* records whose `__init__` stores a parameter `p` in `self._p`, or passes parameters on to the base class's
+  `__init__` (`super(C, self).__init__(a)`); record fields may be typed (`"fields"` for a record whose
+  `__init__` is translated as a unit of kind `init`);
+* spec key `unions`: a list field holds objects of several declared classes; `obj.m(args)` on such an object is
+  a generated dispatch over the classes' own (or inherited) method `m`;
+* unit kinds `query` (method that only reads `self`), `staticmethod` (with monomorphic `instances`), `init`;
+* types `List T` and `OptList T` (a list or `None`); `[]`, truth value of a list, `len(xs)`, `xs[i]` with a
+  constant index, `x.split("c")` with a one-character constant, `xs.append(e)` on a list field of `self`;
+* `super(C, self).m(args)`; `a and b` / `a or b` whose operands may raise (short-circuit in `Option`);
+* `raise E(...)` (= `none`); `for x in xs: if c: return e` followed by more statements (`forFirst`);
+  `for x in xs: <body without return>` in a self-mutating method (`forEachM`).
 """
 import ast
 import json
@@ -34,16 +48,74 @@ def lean_name(n):
     return {'default': 'dflt', 'from': 'from_', 'end': 'end_', 'at': 'at_'}.get(n, n)
 
 
+def cls_name(n):
+    return n.lstrip('_')
+
+
+def lean_ty(t):
+    if t.startswith('List '):
+        return 'List %s' % lean_ty_atom(t[5:])
+    if t.startswith('OptList '):
+        return 'Option (List %s)' % lean_ty_atom(t[8:])
+    return cls_name(t)
+
+
+def lean_ty_atom(t):
+    r = lean_ty(t)
+    return '(%s)' % r if ' ' in r else r
+
+
 def lean_str(s):
     return '(V.str [%s])' % ', '.join("'%s'" % ('\\\\' if c == '\\' else "\\'" if c == "'" else c) for c in s)
 
 
 class Fn(object):
-    def __init__(self, spec, records, funcs):
+    def __init__(self, spec, records, funcs, ctx=None):
         self.spec = spec
         self.records = records          # class name -> [field names]
         self.funcs = funcs              # python name -> {'ret': lean type, 'params': [...]}
         self.counter = 0
+        ctx = ctx or {}
+        self.ftypes = ctx.get('ftypes', {})      # class -> {field: type}; absent = every field is a V
+        self.ctors = ctx.get('ctors', {})        # class -> [(parameter, field)] of __init__
+        self.unions = ctx.get('unions', {})      # union name -> [class names]
+        self.methods = ctx.get('methods', {})    # (class or union, method) -> [{'params': [(n, t)], 'ret': t, 'lean': name}]
+        self.bases = ctx.get('bases', {})        # class -> base class (declared records only)
+        self.cls = ctx.get('cls')                # class of the unit being translated
+
+    def ftype(self, cls, field):
+        return self.ftypes.get(cls, {}).get(field, 'V')
+
+    def field_of(self, cls, attr):
+        """the declared field an attribute name refers to (`_name` and `name` are the same Lean field)"""
+        for f in self.records[cls]:
+            if f == attr:
+                return f
+        for f in self.records[cls]:
+            if lean_name(f) == lean_name(attr):
+                return f
+        return None
+
+    def opt_term(self, e, env):
+        """a condition as one Lean term of type `Option Bool` (its own binds inside)"""
+        b, t = self.cond(e, env)
+        if not b:
+            return 'some %s' % t
+        out = ''
+        for (n, o) in b:
+            out += '%s.bind fun %s => ' % (o, n)
+        return '(' + out + 'some %s)' % t
+
+    def method_call(self, recv_term, recv_ty, name, e, env, pre):
+        cands = self.methods.get((recv_ty, name))
+        if not cands:
+            raise Unsupported('method %s of a %s' % (name, recv_ty))
+        b, terms, types = self.args(e, env)
+        for c in cands:
+            if [t for (_n, t) in c['params']] == types:
+                n = self.fresh()
+                return pre + b + [(n, '(%s %s)' % (c['lean'], ' '.join([recv_term] + terms)))], n, c['ret']
+        raise Unsupported('method %s.%s called with %s' % (recv_ty, name, types))
 
     def fresh(self):
         self.counter += 1
@@ -65,6 +137,8 @@ class Fn(object):
             raise Unsupported('constant %r' % (v,))
         if isinstance(e, ast.Dict) and not e.keys:
             return [], '(V.dict 0 false)', 'V'          # the empty dict literal
+        if isinstance(e, ast.List) and not e.elts:
+            return [], '[]', 'List ?'                    # typed by the field it is assigned to
         if isinstance(e, ast.Name):
             if e.id in env:
                 return [], lean_name(e.id), env[e.id]
@@ -72,12 +146,17 @@ class Fn(object):
         if isinstance(e, ast.Attribute):
             b, t, ty = self.expr(e.value, env)
             if ty in self.records:
-                if e.attr not in self.records[ty]:
+                f = self.field_of(ty, e.attr)
+                if f is None:
                     raise Unsupported('%s has no field %s' % (ty, e.attr))
-                return b, '%s.%s' % (t, lean_name(e.attr)), 'V'
+                return b, '%s.%s' % (t, lean_name(f)), self.ftype(ty, f)
             raise Unsupported('attribute %s of a %s' % (e.attr, ty))
         if isinstance(e, ast.Subscript):
             b, t, ty = self.expr(e.value, env)
+            if ty.startswith('List ') and isinstance(e.slice, ast.Constant) and isinstance(e.slice.value, int) \
+                    and not isinstance(e.slice.value, bool) and e.slice.value >= 0:
+                n = self.fresh()                          # IndexError = none
+                return b + [(n, '%s[%d]?' % (t, e.slice.value))], n, ty[5:]
             if ty != 'V':
                 raise Unsupported('subscript of a %s' % ty)
             s = e.slice
@@ -118,11 +197,24 @@ class Fn(object):
             return b, '(! %s)' % t, 'Bool'
         if isinstance(e, ast.BoolOp):
             parts = []
+            raising = False
             for v in e.values:
                 b, t = self.cond(v, env)
                 if b:
-                    raise Unsupported('and/or with an operand that may raise')
+                    raising = True
                 parts.append(t)
+            if raising:
+                # short-circuit evaluation in Option: a later operand is evaluated (and may raise) only
+                # if the earlier ones did not decide
+                is_and = isinstance(e.op, ast.And)
+                term = self.opt_term(e.values[-1], env)
+                for v in reversed(e.values[:-1]):
+                    n = self.fresh()
+                    term = '(%s.bind fun %s => if %s then %s else %s)' % (
+                        self.opt_term(v, env), n, n,
+                        term if is_and else 'some true', 'some false' if is_and else term)
+                n = self.fresh()
+                return [(n, term)], n, 'Bool'
             return [], '(' + (' && ' if isinstance(e.op, ast.And) else ' || ').join(parts) + ')', 'Bool'
         if isinstance(e, ast.Call):
             return self.call(e, env)
@@ -134,6 +226,10 @@ class Fn(object):
             return b, t
         if ty == 'V':
             return b, '(V.truthy %s)' % t
+        if ty.startswith('List '):
+            return b, '(! %s.isEmpty)' % t
+        if ty.startswith('OptList '):
+            return b, '(optListTruthy %s)' % t
         raise Unsupported('truth value of a %s' % ty)
 
     def args(self, call, env):
@@ -162,9 +258,50 @@ class Fn(object):
                     raise Unsupported('dict.get default of type %s' % ty)
                 return b, '(Dict.getOr %s %s %s)' % (d, k, t), 'V'
             raise Unsupported('dict.get arity')
+        if isinstance(f, ast.Attribute):
+            # super(C, self).m(args) / super().m(args): the base class's method on the base part of self
+            v = f.value
+            if isinstance(v, ast.Call) and isinstance(v.func, ast.Name) and v.func.id == 'super':
+                if self.cls is None or self.cls not in self.bases or env.get('self') != self.cls:
+                    raise Unsupported('super() outside a method of a declared subclass')
+                if v.args and not (len(v.args) == 2 and isinstance(v.args[0], ast.Name) and v.args[0].id == self.cls
+                                   and isinstance(v.args[1], ast.Name) and v.args[1].id == 'self'):
+                    raise Unsupported('super(%s)' % ast.unparse(v))
+                base = self.bases[self.cls]
+                up = '{ ' + ', '.join('%s := self.%s' % (lean_name(x), lean_name(x)) for x in self.records[base]) + \
+                    ' : %s }' % cls_name(base)
+                return self.method_call(up, base, f.attr, e, env, [])
+            # x.split("c") on a str value
+            if f.attr == 'split' and len(e.args) == 1 and not e.keywords and isinstance(e.args[0], ast.Constant) \
+                    and isinstance(e.args[0].value, str) and len(e.args[0].value) == 1:
+                b, t, ty = self.expr(v, env)
+                if ty != 'V':
+                    raise Unsupported('split of a %s' % ty)
+                n = self.fresh()
+                c = e.args[0].value
+                return b + [(n, "(V.split '%s' %s)" % ("\\'" if c == "'" else '\\\\' if c == '\\' else c, t))], n, 'List V'
+            # method of a declared record / union / of self
+            b, t, ty = self.expr(v, env)
+            if (ty, f.attr) in self.methods:
+                return self.method_call(t, ty, f.attr, e, env, b)
+            # staticmethod reached through self: self.m(args)
+            if ty in self.records and ('static:' + ty, f.attr) in self.methods:
+                cands = self.methods[('static:' + ty, f.attr)]
+                b2, terms, types = self.args(e, env)
+                for c in cands:
+                    if [x for (_n, x) in c['params']] == types:
+                        n = self.fresh()
+                        return b + b2 + [(n, '(%s %s)' % (c['lean'], ' '.join(terms)))], n, c['ret']
+                raise Unsupported('%s.%s called with %s' % (ty, f.attr, types))
+            raise Unsupported('call of %s' % ast.unparse(f))
         if not isinstance(f, ast.Name):
             raise Unsupported('call of %s' % ast.unparse(f))
         name = f.id
+        if name == 'len' and len(e.args) == 1 and not e.keywords:
+            b, t, ty = self.expr(e.args[0], env)
+            if not ty.startswith('List '):
+                raise Unsupported('len of a %s' % ty)
+            return b, '(pylen %s)' % t, 'V'
         if name == 'isinstance' and len(e.args) == 2 and isinstance(e.args[1], ast.Name):
             b, t, ty = self.expr(e.args[0], env)
             pred = {'int': 'V.isInt', 'str': 'V.isStr', 'dict': 'V.isDict'}.get(e.args[1].id)
@@ -190,12 +327,13 @@ class Fn(object):
                 raise Unsupported('call of %s with %s' % (name, types))
             n = self.fresh()
             return b + [(n, '(%s %s)' % (lean_name(name), ' '.join(terms)))], n, sig['ret']
-        if name in self.records:
-            fields = self.records[name]
+        if name in self.records and name in self.ctors:
+            ctor = self.ctors[name]                     # [(parameter, field)] in the order of __init__'s parameters
             b, terms, types = self.args(e, env)
-            if len(terms) != len(fields) or any(t != 'V' for t in types):
-                raise Unsupported('constructor %s called with %d arguments for %d parameters' % (name, len(terms), len(fields)))
-            lit = '{ ' + ', '.join('%s := %s' % (lean_name(f_), t) for f_, t in zip(fields, terms)) + ' : %s }' % name
+            if len(terms) != len(ctor) or any(t != self.ftype(name, f_) for t, (_p, f_) in zip(types, ctor)):
+                raise Unsupported('constructor %s called with %d arguments for %d parameters' % (name, len(terms), len(ctor)))
+            given = dict((f_, t) for (_p, f_), t in zip(ctor, terms))
+            lit = '{ ' + ', '.join('%s := %s' % (lean_name(f_), given[f_]) for f_ in self.records[name]) + ' : %s }' % cls_name(name)
             return b, lit, name
         raise Unsupported('call of %s' % name)
 
@@ -231,6 +369,59 @@ class Fn(object):
             if ty != ret:
                 raise Unsupported('returns a %s, spec says %s' % (ty, ret))
             return self.wrap(b, pad + 'some %s' % t, pad)
+        if isinstance(s, ast.Raise):
+            return pad + 'none'                          # an exception: the rest is not executed
+        if isinstance(s, ast.Expr) and isinstance(s.value, ast.Call) and isinstance(s.value.func, ast.Attribute) \
+                and s.value.func.attr == 'append' and self_ty is not None:
+            # self.<list field>.append(e)
+            tgt = s.value.func.value
+            if not (isinstance(tgt, ast.Attribute) and isinstance(tgt.value, ast.Name) and tgt.value.id == 'self') \
+                    or len(s.value.args) != 1 or s.value.keywords:
+                raise Unsupported('append on %s' % ast.unparse(tgt))
+            f = self.field_of(self_ty, tgt.attr)
+            fty = self.ftype(self_ty, f) if f else None
+            if not f or not fty.startswith('List '):
+                raise Unsupported('append on self.%s' % tgt.attr)
+            b, t, ty = self.expr(s.value.args[0], env)
+            elem = fty[5:]
+            if ty == elem:
+                item = t
+            elif elem in self.unions and ty in self.unions[elem]:
+                item = '(%s.%s %s)' % (cls_name(elem), cls_name(ty), t)
+            else:
+                raise Unsupported('append of a %s to a list of %s' % (ty, elem))
+            body = pad + 'let self := { self with %s := self.%s ++ [%s] }\n' % (lean_name(f), lean_name(f), item) + \
+                self.block(rest, env, ret, self_ty, indent)
+            return self.wrap(b, body, pad)
+        if isinstance(s, ast.For):
+            if s.orelse or not isinstance(s.target, ast.Name):
+                raise Unsupported('for ... else / tuple target')
+            b, t, ty = self.expr(s.iter, env)
+            if ty.startswith('OptList '):
+                n = self.fresh()
+                b, t, ty = b + [(n, t)], n, 'List ' + ty[8:]     # iterating None raises
+            if not ty.startswith('List '):
+                raise Unsupported('for over a %s' % ty)
+            x = s.target.id
+            env2 = dict(env, **{x: ty[5:]})
+            body = s.body
+            # shape 1: `for x in xs: if c: return e` -- the first match decides, otherwise go on
+            if len(body) == 1 and isinstance(body[0], ast.If) and not body[0].orelse and len(body[0].body) == 1 \
+                    and isinstance(body[0].body[0], ast.Return):
+                c = self.opt_term(body[0].test, env2)
+                found = self.block(body[0].body, env2, ret, self_ty, indent + 2)
+                after = self.block(rest, env, ret, self_ty, indent + 2)
+                term = pad + 'forFirst %s (fun %s => %s)\n%s  (fun %s =>\n%s)\n%s  (\n%s)' % (
+                    t, lean_name(x), c, pad, lean_name(x), found, pad, after)
+                return self.wrap(b, term, pad)
+            # shape 2: a body without `return`, in a method that mutates self
+            if self_ty is not None and not any(isinstance(n_, ast.Return) for st in body for n_ in ast.walk(st)):
+                inner = self.block(list(body), env2, ret, self_ty, indent + 2)
+                after = self.block(rest, env, ret, self_ty, indent + 1)
+                term = pad + '(forEachM %s self (fun self %s =>\n%s)).bind fun self =>\n%s' % (
+                    t, lean_name(x), inner, after)
+                return self.wrap(b, term, pad)
+            raise Unsupported('for loop of this shape')
         if isinstance(s, ast.Assert):
             b, t = self.cond(s.test, env)
             body = pad + 'if %s then\n%s\n%selse\n%s  none' % (t, self.block(rest, env, ret, self_ty, indent + 1), pad, pad)
@@ -246,9 +437,10 @@ class Fn(object):
                 return self.wrap(b, body, pad)
             if isinstance(tg, ast.Attribute) and isinstance(tg.value, ast.Name) and tg.value.id == 'self' \
                     and self_ty is not None:
-                if tg.attr not in self.records[self_ty] or ty != 'V':
+                f_ = self.field_of(self_ty, tg.attr)
+                if f_ is None or not (ty == self.ftype(self_ty, f_) or (ty == 'List ?' and self.ftype(self_ty, f_).startswith('List '))):
                     raise Unsupported('assignment to self.%s' % tg.attr)
-                body = pad + 'let self := { self with %s := %s }\n' % (lean_name(tg.attr), t) + \
+                body = pad + 'let self := { self with %s := %s }\n' % (lean_name(f_), t) + \
                     self.block(rest, env, ret, self_ty, indent)
                 return self.wrap(b, body, pad)
             raise Unsupported('assignment target %s' % ast.unparse(tg))
@@ -275,26 +467,75 @@ def find_def(tree, cls, name):
     raise Unsupported('%s%s not found' % (cls + '.' if cls else '', name))
 
 
+def class_def(tree, cls):
+    for n in tree.body:
+        if isinstance(n, ast.ClassDef) and n.name == cls:
+            return n
+    raise Unsupported('class %s not found' % cls)
+
+
+def base_of(tree, cls):
+    bases = [b.id for b in class_def(tree, cls).bases if isinstance(b, ast.Name) and b.id != 'object']
+    if len(bases) > 1 or len(bases) != len([b for b in class_def(tree, cls).bases
+                                            if not (isinstance(b, ast.Name) and b.id == 'object')]):
+        raise Unsupported('bases of %s' % cls)
+    return bases[0] if bases else None
+
+
 def record_fields(tree, cls):
-    """parameters of __init__ in source order; __init__ must store each in the field of the same name"""
+    """(fields, ctor): the fields in the order they are stored and, for each parameter of __init__ in source
+    order, the field it ends up in.  __init__ may only store a parameter `p` in `self.p` or `self._p`, and
+    hand parameters on to the base class's __init__ (`super(C, self).__init__(a, b)`)."""
     init = find_def(tree, cls, '__init__')
     params = [a.arg for a in init.args.args[1:]]
-    stored = {}
+    fields, where = [], {}
     for s in init.body:
         if isinstance(s, ast.Expr) and isinstance(s.value, ast.Constant):
             continue
         if isinstance(s, ast.Assign) and len(s.targets) == 1 and isinstance(s.targets[0], ast.Attribute) \
                 and isinstance(s.targets[0].value, ast.Name) and s.targets[0].value.id == 'self' \
                 and isinstance(s.value, ast.Name):
-            stored[s.targets[0].attr] = s.value.id
+            attr, p = s.targets[0].attr, s.value.id
+            if p not in params or attr not in (p, '_' + p) or p in where or attr in fields:
+                raise Unsupported('%s.__init__ does not store parameter %s in self.%s or self._%s' % (cls, p, p, p))
+            fields.append(attr)
+            where[p] = attr
+            continue
+        if isinstance(s, ast.Expr) and isinstance(s.value, ast.Call) and isinstance(s.value.func, ast.Attribute) \
+                and s.value.func.attr == '__init__' and isinstance(s.value.func.value, ast.Call) \
+                and isinstance(s.value.func.value.func, ast.Name) and s.value.func.value.func.id == 'super' \
+                and not s.value.keywords and all(isinstance(a, ast.Name) for a in s.value.args):
+            base = base_of(tree, cls)
+            if base is None or fields:
+                raise Unsupported('%s.__init__: super().__init__ must come first and needs a base class' % cls)
+            bfields, bctor = record_fields(tree, base)
+            given = [a.id for a in s.value.args]
+            if len(given) != len(bctor) or any(g not in params or g in where for g in given):
+                raise Unsupported('%s.__init__: arguments of super().__init__' % cls)
+            for g, (_bp, bf) in zip(given, bctor):
+                where[g] = bf
+            fields += bfields
             continue
         raise Unsupported('%s.__init__ does more than store its parameters: %s' % (cls, ast.unparse(s)[:60]))
     for p in params:
-        if stored.get(p) != p:
+        if p not in where:
             raise Unsupported('%s.__init__ does not store parameter %s in self.%s' % (cls, p, p))
-    if set(stored) != set(params):
-        raise Unsupported('%s.__init__ sets fields %s from parameters %s' % (cls, sorted(stored), params))
-    return params
+    if len(set(lean_name(f) for f in fields)) != len(fields):
+        raise Unsupported('%s: field names collide' % cls)
+    return fields, [(p, where[p]) for p in params]
+
+
+def method_def(tree, cls, name, declared):
+    """the method `name` of `cls`, its own or inherited from a declared base; returns (class that defines it, def)"""
+    c = cls
+    while c is not None:
+        for n in class_def(tree, c).body:
+            if isinstance(n, ast.FunctionDef) and n.name == name:
+                return c, n
+        c = base_of(tree, c)
+        if c is not None and c not in declared:
+            raise Unsupported('%s.%s is inherited from the undeclared class %s' % (cls, name, c))
+    raise Unsupported('%s.%s not found' % (cls, name))
 
 
 def translate(spec, repo):
@@ -304,26 +545,118 @@ def translate(spec, repo):
         if src not in trees:
             trees[src] = ast.parse(open(os.path.join(repo, src)).read())
         return trees[src]
-    records = {}
+    records, ftypes, ctors, bases, rec_src = {}, {}, {}, {}, {}
+    decl_order = []
+    for v in spec.get('views', []):                     # objects of which only these attributes are read
+        records[v['name']] = list(v['fields'])
+        ftypes[v['name']] = dict(v['fields'])
+        decl_order.append(v['name'])
     for r in spec.get('records', []):
-        records[r['class']] = record_fields(tree(r['source']), r['class'])
+        cls = r['class']
+        rec_src[cls] = r['source']
+        if 'fields' in r:                               # typed fields; __init__ is a unit of kind `init`
+            records[cls] = list(r['fields'])
+            ftypes[cls] = dict(r['fields'])
+        else:
+            records[cls], ctors[cls] = record_fields(tree(r['source']), cls)
+        b = base_of(tree(r['source']), cls)
+        if b is not None:
+            bases[cls] = b
+        decl_order.append(cls)
+    for c, b in bases.items():
+        if b not in records:
+            raise Unsupported('base class %s of %s is not declared' % (b, c))
+    unions = dict((u['name'], list(u['classes'])) for u in spec.get('unions', []))
     funcs = {}
+    methods = {}
     for u in spec['units']:
-        if u.get('kind', 'function') == 'function':
+        kind = u.get('kind', 'function')
+        if kind == 'function':
             funcs[u['name']] = {'ret': u['returns'], 'params': list(u['params'].items())}
+        elif kind == 'query':
+            methods.setdefault((u['class'], u['name']), []).append(
+                {'params': list(u['params'].items()), 'ret': u['returns'],
+                 'lean': '%s_%s' % (cls_name(u['class']), u['name'].lstrip('_'))})
+        elif kind == 'staticmethod':
+            for inst in u['instances']:
+                methods.setdefault(('static:' + u['class'], u['name']), []).append(
+                    {'params': list(inst['params'].items()), 'ret': u['returns'],
+                     'lean': '%s_%s_%s' % (cls_name(u['class']), u['name'].lstrip('_'), inst['suffix'])})
+    for un in spec.get('unions', []):
+        for d in un.get('dispatch', []):
+            methods.setdefault((un['name'], d['method']), []).append(
+                {'params': list(d['params'].items()), 'ret': d['returns'],
+                 'lean': '%s_%s' % (cls_name(un['name']), d['method'].lstrip('_'))})
+    ctx = {'ftypes': ftypes, 'ctors': ctors, 'unions': unions, 'methods': methods, 'bases': bases}
     out = ['/- GENERATED by tools/py2lean_fn.py — do not edit.  Sources: %s -/' %
            ', '.join(sorted({u['source'] for u in spec['units']})),
            'import RB.Util.PyVal', 'namespace %s' % spec['namespace'], 'open RB.Py', '']
-    for name, fields in records.items():
-        out.append('structure %s where' % name)
-        for f in fields:
-            out.append('  %s : V' % lean_name(f))
+
+    def emit_record(name):
+        out.append('structure %s where' % cls_name(name))
+        for f in records[name]:
+            out.append('  %s : %s' % (lean_name(f), lean_ty(ftypes.get(name, {}).get(f, 'V'))))
         out.append('deriving Repr, DecidableEq')
         out.append('')
+
+    def emit_union(un):
+        out.append('/-- an object of one of the classes %s -/' % ', '.join(un['classes']))
+        out.append('inductive %s where' % cls_name(un['name']))
+        for c in un['classes']:
+            out.append('  | %s (o : %s)' % (cls_name(c), cls_name(c)))
+        out.append('deriving Repr, DecidableEq')
+        out.append('')
+
+    emitted = set()
+    union_by_name = dict((u['name'], u) for u in spec.get('unions', []))
+
+    def needs(name):
+        return [t.split(' ')[-1] for t in ftypes.get(name, {}).values()]
+
+    def emit(name):
+        if name in emitted or name == 'V':
+            return
+        emitted.add(name)
+        if name in union_by_name:
+            for c in union_by_name[name]['classes']:
+                emit(c)
+            emit_union(union_by_name[name])
+        elif name in records:
+            for d in needs(name):
+                emit(d)
+            emit_record(name)
+    for name in decl_order:
+        emit(name)
+    for un in spec.get('unions', []):
+        emit(un['name'])
+
+    def signature(first, params):
+        return ' '.join(first + ['(%s : %s)' % (lean_name(p_), lean_ty(t)) for p_, t in params.items()])
+
     for u in spec['units']:
-        fn = find_def(tree(u['source']), u.get('class'), u['name'])
         kind = u.get('kind', 'function')
-        tr = Fn(spec, records, funcs)
+        if kind == 'dispatch':
+            # obj.m(args) on an object of a union: the class's own (or inherited) method
+            un = union_by_name[u['union']]
+            d = [x for x in un['dispatch'] if x['method'] == u['name']][0]
+            lname = '%s_%s' % (cls_name(un['name']), u['name'].lstrip('_'))
+            arms = []
+            for c in un['classes']:
+                owner, _fn = method_def(tree(rec_src[c]), c, u['name'], records)
+                cand = [m for m in methods.get((owner, u['name']), []) if [t for (_n, t) in m['params']] == list(d['params'].values())]
+                if not cand:
+                    raise Unsupported('%s.%s is not translated at %s' % (owner, u['name'], list(d['params'].values())))
+                recv = 'o'
+                if owner != c:                           # inherited: the base part of the object
+                    recv = '{ ' + ', '.join('%s := o.%s' % (lean_name(x), lean_name(x)) for x in records[owner]) + \
+                        ' : %s }' % cls_name(owner)
+                arms.append('  | .%s o => %s %s %s' % (cls_name(c), cand[0]['lean'], recv,
+                                                      ' '.join(lean_name(p_) for p_ in d['params'])))
+            out.append('def %s (obj : %s) %s : Option %s :=\n  match obj with\n%s\n' % (
+                lname, cls_name(un['name']), signature([], d['params']), d['returns'], '\n'.join(arms)))
+            continue
+        fn = find_def(tree(u['source']), u.get('class'), u['name'])
+        tr = Fn(spec, records, funcs, dict(ctx, cls=u.get('class')))
         got = [a.arg for a in fn.args.args]
         if kind == 'function':
             want = list(u['params'])
@@ -349,6 +682,62 @@ def translate(spec, repo):
             sig = ' '.join(['(self : %s)' % u['class']] + ['(%s : %s)' % (lean_name(p), t) for p, t in u.get('params', {}).items()])
             body = tr.block(fn.body, env, u['class'], u['class'], 1)
             out.append('def %s_%s %s : Option %s :=\n%s\n' % (u['class'], u['name'].lstrip('_'), sig, u['class'], body))
+        elif kind == 'query':
+            # a method that only reads self
+            if any(isinstance(d_, ast.Name) and d_.id in ('staticmethod', 'classmethod') for d_ in fn.decorator_list):
+                raise Unsupported('%s.%s is not an instance method' % (u['class'], u['name']))
+            want = ['self'] + list(u['params'])
+            if got != want:
+                raise Unsupported('signature of %s.%s is %s, spec says %s' % (u['class'], u['name'], got, want))
+            env = dict(u['params'], self=u['class'])
+            body = tr.block(fn.body, env, u['returns'], None, 1)
+            out.append('def %s_%s %s : Option %s :=\n%s\n' % (
+                cls_name(u['class']), u['name'].lstrip('_'),
+                signature(['(self : %s)' % cls_name(u['class'])], u['params']), u['returns'], body))
+        elif kind == 'staticmethod':
+            if not any(isinstance(d_, ast.Name) and d_.id == 'staticmethod' for d_ in fn.decorator_list):
+                raise Unsupported('%s.%s is not a staticmethod' % (u['class'], u['name']))
+            for inst in u['instances']:
+                if got != list(inst['params']):
+                    raise Unsupported('signature of %s.%s is %s, spec says %s' % (u['class'], u['name'], got, list(inst['params'])))
+                tr = Fn(spec, records, funcs, dict(ctx, cls=u.get('class')))
+                body = tr.block(fn.body, dict(inst['params']), u['returns'], None, 1)
+                out.append('def %s_%s_%s %s : Option %s :=\n%s\n' % (
+                    cls_name(u['class']), u['name'].lstrip('_'), inst['suffix'], signature([], inst['params']),
+                    u['returns'], body))
+        elif kind == 'init':
+            # __init__ of a record with typed fields: the leading `self.f = e` assignments (every field exactly
+            # once, nothing else before) build the object, the rest mutates it
+            want = ['self'] + list(u['params'])
+            if got != want:
+                raise Unsupported('signature of %s.__init__ is %s, spec says %s' % (u['class'], got, want))
+            cls = u['class']
+            env = dict(u['params'])
+            stmts = [s_ for s_ in fn.body if not (isinstance(s_, ast.Expr) and isinstance(s_.value, ast.Constant))]
+            first, binds = {}, []
+            k = 0
+            while k < len(stmts) and len(first) < len(records[cls]):
+                s_ = stmts[k]
+                if not (isinstance(s_, ast.Assign) and len(s_.targets) == 1 and isinstance(s_.targets[0], ast.Attribute)
+                        and isinstance(s_.targets[0].value, ast.Name) and s_.targets[0].value.id == 'self'):
+                    raise Unsupported('%s.__init__ must first assign every field' % cls)
+                f_ = tr.field_of(cls, s_.targets[0].attr)
+                if f_ is None or f_ in first:
+                    raise Unsupported('%s.__init__: field %s' % (cls, s_.targets[0].attr))
+                b_, t_, ty_ = tr.expr(s_.value, env)
+                want_ty = tr.ftype(cls, f_)
+                if not (ty_ == want_ty or (ty_ == 'List ?' and want_ty.startswith('List '))):
+                    raise Unsupported('%s.__init__: self.%s gets a %s' % (cls, f_, ty_))
+                binds += b_
+                first[f_] = t_
+                k += 1
+            if len(first) != len(records[cls]):
+                raise Unsupported('%s.__init__ does not assign every field first' % cls)
+            lit = '{ ' + ', '.join('%s := %s' % (lean_name(f_), first[f_]) for f_ in records[cls]) + ' : %s }' % cls_name(cls)
+            body = tr.block(stmts[k:], dict(env, self=cls), cls, cls, 1)
+            body = Fn.wrap(binds, '  let self : %s := %s\n%s' % (cls_name(cls), lit, body), '  ')
+            out.append('def %s_init %s : Option %s :=\n%s\n' % (
+                cls_name(cls), signature([], u['params']), cls_name(cls), body))
         else:
             raise Unsupported('unit kind %s' % kind)
     out.append('end %s' % spec['namespace'])
